@@ -21,7 +21,7 @@ def configs(tier: str):
                         if N == 2 and B > (2 if tier == 'quick' else 3):
                             continue
                         for faults, hooks in ((False, False), (True, False), (True, True)):
-                            if hooks and (N == 2 or B > 2):
+                            if hooks and (N == 2 or B > (1 if tier == 'quick' else 2)):
                                 continue
                             if faults and N == 2 and B > (1 if tier == 'quick' else 2):
                                 continue
